@@ -87,30 +87,53 @@ func (c *c06) Plan(seed uint64, tier string, worker, workers, idx int) *Plan {
 	}
 	nt := r.Range(2, 4)
 	budget := 20 // operations per run: keeps the linearizability search tractable
+	// swarm: every run draws its own operation mix; kinds may be absent or dominant
+	base := []int{28, 15, 7, 15, 11, 16, 3, 5} // detect reader file lookup setlimit extend readarr use
+	cum := make([]int, len(base))
+	total := 0
+	for i, w := range base {
+		total += w * []int{0, 1, 1, 1, 3}[r.Intn(5)]
+		cum[i] = total
+	}
+	if total == 0 {
+		cum[0], total = 1, 1
+		for i := 1; i < len(cum); i++ {
+			cum[i] = 1
+		}
+	}
+	pickKind := func() int {
+		v := r.Intn(total)
+		for i, c := range cum {
+			if v < c {
+				return i
+			}
+		}
+		return 0
+	}
 	for t := 0; t < nt; t++ {
 		var ops []Op
 		for i, n := 0, r.Range(1, 8); i < n && budget > 0; i++ {
 			budget--
 			in := universe[r.Intn(len(universe))]
 			op := Op{In: &in}
-			switch e := r.Intn(100); {
-			case e < 28:
+			switch e := pickKind(); {
+			case e == 0:
 				op.Kind = "detect"
 				if len(p.Shared) > 0 && r.Chance(1, 3) {
 					k := r.Intn(len(p.Shared))
 					sh := p.Shared[k]
 					op.In, op.Shared = &sh, k+1
 				}
-			case e < 43:
+			case e == 1:
 				op.Kind = "reader"
 				op.Del = randDelivery(r, len(in.Bytes()), 15)
 				if len(op.Del.Chunks) == 0 && r.Chance(2, 3) {
 					op.Del.Chunks = []int{r.Range(1, 9)}
 				}
-			case e < 50:
+			case e == 2:
 				op.Kind = "file"
 				op.Del = randDelivery(r, len(in.Bytes()), 10)
-			case e < 65:
+			case e == 3:
 				op = Op{Kind: "lookup"}
 				if len(g.made) > 0 && r.Chance(3, 4) {
 					e := g.made[r.Intn(len(g.made))]
@@ -119,16 +142,16 @@ func (c *c06) Plan(seed uint64, tier string, worker, workers, idx int) *Plan {
 				} else {
 					op.Name = parents[2+r.Intn(len(parents)-2)].Name
 				}
-			case e < 76:
+			case e == 4:
 				if nextLimit < len(limits) {
 					op = Op{Kind: "setlimit", Limit: limits[nextLimit]}
 					nextLimit++
 				} else {
 					op.Kind = "detect"
 				}
-			case e < 92:
+			case e == 5:
 				op = Op{Kind: "extend", Ext: g.ext()}
-			case e < 95:
+			case e == 6:
 				if len(p.Arrays) > 0 {
 					op = Op{Kind: "readarr", Arr: 0}
 				} else {
